@@ -485,6 +485,11 @@ func newWebsocketLink(e *Engine, s *SimSess, ser string) *websocketLink {
 	l := &websocketLink{ws: cws, ser: serializerFor(ser), payload: payload, in: newInbuf()}
 	go func() {
 		peer := transport.NewWebsocketPeer(sws, serializerFor(ser), payload, e.Log, 0, qsize)
+		if s.Cfg.Cookie != "" || s.Cfg.NextCookie != "" {
+			// what WebsocketServer passes along with EnableTrackingCookie
+			_ = e.R.AttachClient(peer, wamp.Dict{"type": "websocket", "auth": wamp.Dict{"cookie": s.Cfg.Cookie, "nextcookie": s.Cfg.NextCookie}})
+			return
+		}
 		if s.Cfg.TransportAuth {
 			// what WebsocketServer passes along when cookie tracking / request capture is on
 			_ = e.R.AttachClient(peer, wamp.Dict{"type": "websocket", "auth": wamp.Dict{"cookie": "SECRET-COOKIE", "nextcookie": "SECRET-NEXT", "request": "SECRET-REQUEST"}})
